@@ -109,6 +109,11 @@ def spell_domain(d, rng):
     if d == "ip6":
         return "[IPv6:2001:db8::%s%x]" % (rng.choice("abcdef"), rng.randrange(1, 4096))
     dom = ".".join([label(rng) for _ in range(rng.choice((1, 2)))] + [rng.choice(("example", "test", "example.com", "invalid"))])
+    if rng.random() < 0.08:
+        # a long but legal domain (labels <= 63, total <= 253): longer than any limit that applies to local parts
+        while len(dom) < rng.choice((129, 140, 200, 240)):
+            dom = label(rng, rng.choice((20, 40, 63))) + "." + dom
+        dom = dom[-253:].lstrip(".-_")
     if not re.search("[a-z]", dom):
         dom = "m" + dom
     if d == "mixed":
